@@ -414,12 +414,26 @@ func hexDigit(tb *TB, nib *Term) *Term {
 	return tb.Ite(lt, tb.Bin(OAdd, nib, tb.BVConst(8, '0')), tb.Bin(OAdd, nib, tb.BVConst(8, 'a'-10)))
 }
 
+type hexOrig struct {
+	b  *Term
+	hi bool
+}
+
 func (in *Interp) hexOfBytes(cells []Value) Str {
 	tb := in.tb
 	out := make([]*Term, 0, 2*len(cells))
 	for _, c := range cells {
 		b := c.(*Term)
-		out = append(out, hexDigit(tb, tb.Bin(OLshr, b, tb.BVConst(8, 4))), hexDigit(tb, tb.Bin(OBand, b, tb.BVConst(8, 15))))
+		hi, lo := hexDigit(tb, tb.Bin(OLshr, b, tb.BVConst(8, 4))), hexDigit(tb, tb.Bin(OBand, b, tb.BVConst(8, 15)))
+		if !b.IsConst() {
+			// remembered so that DecodeString of these two characters is the byte itself (exact identity)
+			if in.hexOrigin == nil {
+				in.hexOrigin = map[*Term]hexOrig{}
+			}
+			in.hexOrigin[hi] = hexOrig{b, true}
+			in.hexOrigin[lo] = hexOrig{b, false}
+		}
+		out = append(out, hi, lo)
 	}
 	s := Str{B: out}
 	if s.IsConcrete() {
@@ -765,7 +779,18 @@ func init() {
 			}
 			return r
 		}
+		// one query first: can any symbolic character be the separator at all?
+		anySep := in.tb.False
 		for i := range bs {
+			if t := bs[i].(*Term); !t.IsConst() {
+				anySep = in.tb.Or(anySep, in.tb.Eq(t, in.tb.BVConst(8, uint64(sep[0]))))
+			}
+		}
+		noSymSep := anySep == in.tb.False || !in.decide(fr, nil, anySep)
+		for i := range bs {
+			if t := bs[i].(*Term); !t.IsConst() && noSymSep {
+				continue
+			}
 			if in.decide(fr, nil, in.tb.Eq(bs[i].(*Term), in.tb.BVConst(8, uint64(sep[0])))) {
 				out = append(out, mk(start, i))
 				start = i + 1
@@ -884,6 +909,12 @@ func init() {
 		out := []Value{}
 		allValid := tb.True
 		for i := 0; i+1 < len(cs); i += 2 {
+			if oh, ok := in.hexOrigin[cs[i].(*Term)]; ok && oh.hi {
+				if ol, ok := in.hexOrigin[cs[i+1].(*Term)]; ok && !ol.hi && ol.b == oh.b {
+					out = append(out, oh.b) // the two digits EncodeToString produced for this byte
+					continue
+				}
+			}
 			h, hv := nib(cs[i].(*Term))
 			l, lv := nib(cs[i+1].(*Term))
 			allValid = tb.And(allValid, tb.And(hv, lv))
